@@ -32,8 +32,9 @@ VARIABLES l, bad,
           calls,                 \* open call instructions: <<depth, op, self, state, logs at Before>>
           statics,               \* open static frames: <<depth, state, logs>>
           curlogs,               \* logs of the state object for the current transaction, as last observed
-          nreceipts              \* sizes of the receipts of the finished transactions of the scenario
-tvars == <<vars, l, bad, calls, statics, curlogs, nreceipts>>
+          nreceipts,             \* sizes of the receipts of the finished transactions of the scenario
+          customw                \* one of the node's own opcodes changed the state in static context in this transaction
+tvars == <<vars, l, bad, calls, statics, curlogs, nreceipts, customw>>
 
 Tag(c, t) == IF c THEN <<>> ELSE <<t>>
 OpTag(op) == "op" \o ToString(op)
@@ -63,7 +64,8 @@ JudgeAfter(e) ==
 JudgeExit(e) ==
   IF ~e.ro THEN <<>>
   ELSE IF statics = <<>> \/ statics[Len(statics)].depth # e.depth THEN <<"Proj.static-unbalanced">>
-  ELSE Tag(e.state = statics[Len(statics)].state, "Inv.static-frame-changed-state") \o
+  ELSE Tag(e.state = statics[Len(statics)].state,
+           IF customw THEN "Inv.static-frame-changed-state:after-custom-op" ELSE "Inv.static-frame-changed-state") \o
        Tag(e.logs = statics[Len(statics)].logs, "Inv.static-frame-changed-logs")
 
 JudgeTxEnd(e) ==
@@ -84,13 +86,15 @@ Judge(e) ==
     [] e.event \in {"Reset", "Before", "Enter", "Fault", "Step"} -> <<>>
     [] OTHER -> <<"Proj.unknown-event">>
 
-TraceInit == Init /\ l = 1 /\ bad = <<>> /\ calls = <<>> /\ statics = <<>> /\ curlogs = <<>> /\ nreceipts = <<>>
+TraceInit == Init /\ l = 1 /\ bad = <<>> /\ calls = <<>> /\ statics = <<>> /\ curlogs = <<>> /\ nreceipts = <<>> /\ customw = FALSE
 
 Pop(s) == IF s = <<>> THEN s ELSE SubSeq(s, 1, Len(s) - 1)
 
 TraceNext ==
   /\ l <= Len(Trace)
   /\ l' = l + 1 /\ UNCHANGED vars
+  /\ customw' = (IF Trace[l].event = "TxBegin" THEN FALSE
+                 ELSE IF Trace[l].event = "StaticWrite" /\ Trace[l].stage = "custom" THEN TRUE ELSE customw)
   /\ LET e == Trace[l]
          j == Judge(e)
      IN /\ bad' = bad \o [i \in 1..Len(j) |-> <<l, e.event, j[i]>>]
